@@ -78,8 +78,20 @@ func evalC13(k c13Case) []pbt.Violation {
 	if k.CLI && cli.Bin() != "" {
 		var ref map[string]map[string][]byte
 		for i := 0; i < 3; i++ {
-			trees, r, dir := compileCLI(k.Text, inproc.Langs, i%2 == 0)
-			os.RemoveAll(dir)
+			var trees map[string]map[string][]byte
+			var r cli.Result
+			var dir string
+			if i == 2 {
+				// third process: the output directories hold longer files of an earlier run
+				files, note := filesViaCLI(k.Text, inproc.Langs, first.Files)
+				if files == nil {
+					return []pbt.Violation{{Signature: "cli-fails-where-library-succeeds", Detail: note}}
+				}
+				trees = files
+			} else {
+				trees, r, dir = compileCLI(k.Text, inproc.Langs, i%2 == 0)
+				os.RemoveAll(dir)
+			}
 			if r.Exit != 0 {
 				return []pbt.Violation{{Signature: "cli-fails-where-library-succeeds", Detail: fmt.Sprintf("exit %d: %s", r.Exit, clip(string(r.Stdout)+string(r.Stderr), 300))}}
 			}
@@ -143,7 +155,7 @@ func mapRich(p *dsl.Program) bool {
 
 // genMapRich biases the generator towards the shapes C13 names.
 func genMapRich(rt *rapid.T, avoid map[string]bool) *dsl.Program {
-	p := dsl.GenProgram(rt, dsl.GenCfg{MinPackets: 3, MaxPackets: 7, MaxFields: 7, WantMatch: true, Avoid: avoid})
+	p := dsl.GenProgram(rt, dsl.GenCfg{MinPackets: 3, MaxPackets: 7, MaxFields: 7, WantMatch: true, Avoid: avoid, Shapes: true, AnyOrder: true})
 	// add a second match field to some packet when possible
 	if rapid.Bool().Draw(rt, "second_match") {
 		dsl.AddSecondMatch(rt, p)
@@ -183,7 +195,7 @@ func TestC13(t *testing.T) {
 			lay.Dense = true
 		}
 		text, _ := dsl.Render(p, dsl.Plain{}, lay, dsl.RenderOpts{NoPadRewrites: true})
-		k := c13Case{Text: text, CLI: n%25 == 1}
+		k := c13Case{Text: text, CLI: rapid.IntRange(0, 24).Draw(rt, "with_cli") == 0}
 		c.Eval()
 		if mapRich(p) {
 			c.NonTrivial(pbt.Hash(k.Text), func() any { return map[string]any{"dsl": clip(k.Text, 700)} })
@@ -199,6 +211,8 @@ func TestC13(t *testing.T) {
 // ---------- C14: targets are independent ----------
 
 type c14Case struct {
+	// SharedDir: all requested targets write into ONE output directory
+	SharedDir bool     `json:"shared_dir,omitempty"`
 	Text    string   `json:"text"`
 	History []string `json:"history"`          // generator runs over ONE parsed model
 	Subset  []string `json:"subset,omitempty"` // CLI: requested targets
@@ -242,7 +256,27 @@ func evalC14(k c14Case) []pbt.Violation {
 			return []pbt.Violation{{Signature: "model-mutated-by:" + l, Detail: fmt.Sprintf("generator %s altered the parsed model: %s", l, snapDiff(snap0, s))}}
 		}
 	}
-	if len(k.Subset) > 0 && cli.Bin() != "" {
+	if len(k.Subset) > 0 && cli.Bin() != "" && k.SharedDir {
+		dir := cli.Scratch("shared")
+		defer os.RemoveAll(dir)
+		in := filepath.Join(dir, "in.dsl")
+		_ = os.WriteFile(in, []byte(k.Text), 0o644)
+		args := []string{"compile", "-f", in}
+		want := map[string][]byte{}
+		for _, l := range k.Subset {
+			args = append(args, cli.Flags[l], filepath.Join(dir, "all"))
+			for n, b := range solo[l] {
+				want[n] = b
+			}
+		}
+		r := cli.Run(dir, 60*time.Second, nil, nil, cli.Bin(), args...)
+		if r.Exit != 0 {
+			return []pbt.Violation{{Signature: "cli-fails-where-library-succeeds", Detail: fmt.Sprintf("shared directory, subset %v exit %d: %s", k.Subset, r.Exit, clip(string(r.Stdout), 300))}}
+		}
+		if d := inproc.FilesEqual(want, cli.ReadTree(filepath.Join(dir, "all"))); d != "" {
+			return []pbt.Violation{{Signature: "shared-directory-interference", Detail: fmt.Sprintf("targets %v written into one directory: the tree is not the union of what each target writes alone: %s", k.Subset, d)}}
+		}
+	} else if len(k.Subset) > 0 && cli.Bin() != "" {
 		trees, r, dir := compileCLI(k.Text, k.Subset, true)
 		defer os.RemoveAll(dir)
 		if r.Exit != 0 {
@@ -313,12 +347,16 @@ func TestC14(t *testing.T) {
 	})
 	n := 0
 	c.Check(t, func(rt *rapid.T) {
-		p := dsl.GenProgram(rt, dsl.GenCfg{MaxPackets: 4, Avoid: avoid})
+		p := dsl.GenProgram(rt, dsl.GenCfg{MaxPackets: 4, Avoid: avoid, Shapes: true, AnyOrder: true})
 		hist := rapid.SliceOfN(rapid.SampledFrom(inproc.Langs), 2, 12).Draw(rt, "history")
 		k := c14Case{Text: dsl.PlainText(p), History: hist}
 		n++
-		if n%10 == 1 || pbt.Thorough() {
+		if rapid.IntRange(0, 9).Draw(rt, "with_cli") == 0 || pbt.Thorough() {
 			k.Subset = drawSubset(rt)
+			if rapid.IntRange(0, 3).Draw(rt, "shared_dir") == 0 {
+				k.SharedDir = true
+				c.Class("cli-shared-output-directory")
+			}
 			c.Class(fmt.Sprintf("cli-subset-size-%d", len(k.Subset)))
 			c.Class("cli-subset:" + strings.Join(k.Subset, "+"))
 		}
@@ -409,7 +447,7 @@ func TestC08(t *testing.T) {
 	})
 	kinds := []string{"alias", "dyn", "zchar", "defpad", "padarg", "attrplace", "defopt", "expand", "aslist", "via", "semi", "paircomma"}
 	c.Check(t, func(rt *rapid.T) {
-		p := dsl.GenProgram(rt, dsl.GenCfg{MaxPackets: 4, Docs: true, Avoid: avoid, MetaShare: rapid.IntRange(0, 3).Draw(rt, "metashare") == 0})
+		p := dsl.GenProgram(rt, dsl.GenCfg{MaxPackets: 4, Docs: true, Avoid: avoid, Shapes: true, AnyOrder: true, MetaShare: rapid.IntRange(0, 3).Draw(rt, "metashare") == 0})
 		ua, ub := map[string]int{}, map[string]int{}
 		var only string
 		if rapid.Bool().Draw(rt, "single_kind") {
